@@ -307,3 +307,84 @@ Proof.
 Qed.
 
 End Py.
+
+(* ---------- Go (package-level declarations are visible anywhere in the file) ---------- *)
+
+Section Go.
+Variables (s : schema) (i : nat) (flt : list string).
+Hypothesis Hwf : wf s = true.
+Hypothesis Hi : i < length s.
+Hypothesis Hq : g_qualify LGo s i = true.
+
+Let fl := flat_file (getf s i).
+Let HtGo : TgGo = TgPy \/ TgGo = TgGo := or_intror eq_refl.
+
+Lemma go_type_uses_ok seen all imps fl1 fd fl2 ty :
+  fl = fl1 ++ fd :: fl2 ->
+  incl (dkeys (flat_map (dispatch_one s i flt G_BoundDefinitionList) fl1)) seen -> incl seen all ->
+  (forall m j, In (m, j) (f_imports (getf s i)) -> In (m, j) imps) ->
+  incl (ty_refs ty) (def_refs (fd_def fd)) ->
+  forallb (use_ok s TgGo flt seen all imps) (go_type_uses s ty) = true.
+Proof.
+  intros E Hseen Hall Himps.
+  pose proof (type_use_ok s i flt Hwf Hi TgGo HtGo seen all imps fl1 fd fl2 E Hq Hseen Hall Himps) as tuse.
+  induction ty as [b | r | el IH cap x]; intros Hsub; [reflexivity | | apply IH; exact Hsub].
+  cbn [go_type_uses forallb]. rewrite andb_true_r. apply (tuse r false). apply Hsub. left. reflexivity.
+Qed.
+
+Lemma go_block seen all imps fl1 fd fl2 :
+  fl = fl1 ++ fd :: fl2 ->
+  incl (dkeys (flat_map (dispatch_one s i flt G_BoundDefinitionList) fl1)) seen -> incl seen all ->
+  incl (dkeys (dispatch_one s i flt G_BoundDefinitionList fd)) all ->
+  (forall m j, In (m, j) (f_imports (getf s i)) -> In (m, j) imps) ->
+  dbu_go s TgGo flt all seen imps (map IDecl (dispatch_one s i flt G_BoundDefinitionList fd)) = true.
+Proof.
+  intros E Hseen Hall Hown Himps.
+  pose proof (fun ty => go_type_uses_ok seen all imps fl1 fd fl2 ty E Hseen Hall Himps) as tyok.
+  clear E. destruct fd as [pth d]. cbn [fd_def] in *.
+  destruct d as [n v | n ty | n w ms | n x nested fs]; unfold dispatch_one in *;
+    cbn [fd_def dkind_of dispatch dispatch_filtered andb def_blocks expand blocks_of flat_map app leaf fd_path] in *.
+  - reflexivity.
+  - apply dbu_go_all. intros d Hd S HS. cbn [In] in Hd. destruct Hd as [<- | [<- | []]]; cbn [mk d_uses].
+    + apply (forallb_use_mono s TgGo flt seen _ _ _ _ HS). apply tyok. cbn [def_refs]. apply incl_refl.
+    + cbn [forallb]. rewrite use_ok_deferred; [reflexivity|]. apply Hown. left. reflexivity.
+  - apply dbu_go_all. intros d Hd S HS.
+    assert (Hgn : In (NsMod, dname LGo KEnum "" pth n) all) by (apply Hown; left; reflexivity).
+    cbn [In] in Hd. destruct Hd as [<- | Hd]; [reflexivity|].
+    apply in_app_or in Hd. destruct Hd as [Hd | Hd].
+    + apply in_map_iff in Hd. destruct Hd as [m [<- _]]. cbn [mk d_uses forallb].
+      rewrite use_ok_deferred; [reflexivity | exact Hgn].
+    + cbn [In] in Hd. destruct Hd as [<- | [<- | []]]; cbn [mk d_uses forallb]; rewrite use_ok_deferred; auto.
+  - apply dbu_go_all. intros d Hd S HS.
+    assert (Hgn : In (NsMod, dname LGo KMessage "" pth n) all) by (apply Hown; left; reflexivity).
+    cbn [In] in Hd. destruct Hd as [<- | Hd].
+    + cbn [mkm d_uses]. apply (forallb_use_mono s TgGo flt seen _ _ _ _ HS).
+      apply forallb_flat_map_intro. intros fld Hfld. apply tyok. intros r Hr. cbn [def_refs]. apply in_flat_map.
+      exists fld. split; [apply in_sort_fl; exact Hfld | exact Hr].
+    + repeat (destruct Hd as [<- | Hd]; [cbn [mk d_uses forallb]; try reflexivity; rewrite use_ok_deferred; auto|]).
+      contradiction.
+Qed.
+
+Theorem dbu_TgGo : dbu_b s TgGo flt (render_items s i TgGo flt) = true.
+Proof.
+  unfold dbu_b. rewrite items_TgGo.
+  change (g_imports s i ++ ?a :: ?b :: ?l) with (g_imports s i ++ [a; b] ++ l).
+  set (all := all_keys s TgGo flt _).
+  rewrite !dbu_go_app. split_and; [apply imports_only_map|]. split_and; [reflexivity|].
+  unfold disp, dispatcher. apply dbu_go_flat_map. intros fl1 fd fl2 E.
+  assert (Hall : incl (dkeys (flat_map (dispatch_one s i flt G_BoundDefinitionList) (flat_file (getf s i)))) all).
+  { unfold all. change (all_keys s TgGo flt ?l) with (keys_of s TgGo flt l). rewrite !keys_of_app. unfold disp, dispatcher.
+    rewrite keys_of_decls. apply incl_appr. apply incl_appr. apply incl_refl. }
+  destruct (dkeys_flat_map_incl (dispatch_one s i flt G_BoundDefinitionList) _ fl1 fd fl2 E) as [Hpre Hown].
+  apply (go_block _ all _ fl1 fd fl2 E).
+  - apply incl_appr. apply incl_refl.
+  - unfold g_imports. rewrite keys_of_imports_nonC by discriminate. cbn [app].
+    intros k Hk. apply in_app_or in Hk. destruct Hk as [Hk | Hk].
+    + unfold all. change (all_keys s TgGo flt ?l) with (keys_of s TgGo flt l). rewrite !keys_of_app.
+      apply in_or_app. right. apply in_or_app. left. exact Hk.
+    + apply Hall. apply Hpre. exact Hk.
+  - intros k Hk. apply Hall. apply Hown. exact Hk.
+  - intros m j Hin. apply imps_acc_keeps. unfold g_imports. apply imps_acc_imports; [discriminate | exact Hin].
+Qed.
+
+End Go.
